@@ -86,6 +86,14 @@ class Report:
                 continue
             pat = f.get("obligation_regex")
             if pat and re.search(pat, name):
+                if f.get("input_in") is not None:
+                    # exact list of failing inputs (key `input_key` of the failing input); anything else is a different violation
+                    inp = (what or {}).get("input", {}) if isinstance(what, dict) else {}
+                    if inp.get(f.get("input_key")) not in f["input_in"]:
+                        continue
+                    if any(inp.get(k, v) != v for k, v in (f.get("input_equals") or {}).items()):
+                        continue
+                    return f
                 pred = f.get("input_regex")
                 if pred:
                     blob = json.dumps(what if what is not None else (result.to_json() if result else {}), sort_keys=True, default=str)
